@@ -223,6 +223,37 @@ fn replay_lang(args: &[String]) -> i32 {
     if bad { 1 } else { 0 }
 }
 
+/// C11: `stream <name>` -- write a stream under <name>, list the streams, read it back
+fn replay_stream(args: &[String]) -> i32 {
+    use std::io::{Read, Write};
+    panic::set_hook(Box::new(|_| {}));
+    let name = args[0].clone();
+    let n2 = name.clone();
+    let r = panic::catch_unwind(move || {
+        let cursor = Cursor::new(Vec::new());
+        let mut package = Package::create(PackageType::Installer, cursor).unwrap();
+        match package.write_stream(&n2) {
+            Err(e) => return (false, format!("write_stream refused the name: {e}")),
+            Ok(mut w) => {
+                w.write_all(b"payload").unwrap();
+            }
+        }
+        let listed: Vec<String> = package.streams().collect();
+        let mut data = Vec::new();
+        let read_ok = match package.read_stream(&n2) {
+            Ok(mut rd) => {
+                rd.read_to_end(&mut data).unwrap();
+                data == b"payload"
+            }
+            Err(_) => false,
+        };
+        (listed != vec![n2.clone()] || !read_ok, format!("listed={listed:?} read_back_ok={read_ok}"))
+    });
+    let (bad, shown) = r.unwrap_or((true, "PANIC".to_string()));
+    println!("REPLAY family=stream name={name:?} {shown} verdict={}", if bad { "VIOLATED" } else { "ok" });
+    if bad { 1 } else { 0 }
+}
+
 fn main() {
     let args: Vec<String> = std::env::args().skip(1).collect();
     if args.is_empty() {
@@ -234,6 +265,7 @@ fn main() {
         "codepage" => replay_codepage(&args[1..]),
         "logic" => replay_logic(&args[1..]),
         "lang" => replay_lang(&args[1..]),
+        "stream" => replay_stream(&args[1..]),
         _ => 2,
     };
     std::process::exit(rc);
